@@ -137,3 +137,40 @@ pub fn tier_plans(tier: Tier, notify_ops: bool) -> Vec<Plan> {
         ],
     }
 }
+
+/// Linear (non-branching) histories with every step checked, for queue sizes beyond the BFS range
+/// and for runs longer than 65536 submissions. Violations are attributed by property as usual.
+pub fn run_linear(check: &mut Check, tier: Tier) {
+    use crate::engine::chooser;
+    use crate::qcore::{self, QCfg};
+    use crate::util::J;
+    fn one<const N: usize>(check: &mut Check, cfg: QCfg, cycles: usize) {
+        let part = format!("linear-run:N={},indirect={},event_idx={},legacy={},off={},cycles={}", N, cfg.indirect as u8, cfg.event_idx as u8, cfg.legacy as u8, cfg.start_off, cycles);
+        chooser::begin(&[], false);
+        let steps = crate::util::catch(|| qcore::linear_run::<N>(cfg, cycles));
+        let out = chooser::end();
+        let subs = out.tags.iter().filter(|t| t.as_ref() == "add:ok").count() as u64;
+        match steps {
+            Ok(steps) => check.add_sweep(&part, steps, 1, true, J::obj().set("successful_submissions", J::i(subs)).set("index_wraps", J::i((subs + cfg.start_off as u64) / 65536))),
+            Err(p) => check.machinery_error(format!("{}: harness panic: {}", part, p)),
+        }
+        let mut seen = std::collections::HashSet::new();
+        for v in out.violations {
+            if seen.insert((v.prop, v.kind.clone())) {
+                check.add_violation(v, &part, J::obj().set("kind", J::s("linear")).set("note", J::s("deterministic linear history: re-run the check to reproduce")), vec![]);
+            }
+        }
+    }
+    let base = QCfg { indirect: false, event_idx: false, ap: false, legacy: false, start_off: 0, notify_ops: false, abstract_idx: false, trace: false, reduced: false };
+    let ind = QCfg { indirect: true, event_idx: true, ..base };
+    let long = if tier == Tier::Quick { 24_000 } else { 120_000 };
+    let big = if tier == Tier::Quick { 150 } else { 1500 };
+    one::<4>(check, base, long);
+    one::<4>(check, ind, long);
+    one::<32>(check, QCfg { start_off: 65500, ..base }, big * 4);
+    one::<32>(check, QCfg { start_off: 65500, legacy: true, ..ind }, big * 4);
+    one::<256>(check, QCfg { start_off: 65000, ..ind }, big);
+    one::<256>(check, QCfg { legacy: true, ..base }, big);
+    one::<1024>(check, QCfg { start_off: 64000, ..base }, big);
+    one::<1024>(check, ind, big);
+}
